@@ -876,6 +876,89 @@ def rule_validators_test_the_value_itself(eng, rep, rule="C07-5b.type-validators
     rep.require_count(rule, "type validators", n, 4)
 
 
+# --------------------------------------------------------------------------------------------- C07-2b
+def rule_shapes_validated_before_arithmetic(eng, rep, rule="C07-2b.user-arrays-are-combined-only-after-their-shapes-were-validated"):
+    """x0 and the two bound vectors come from the caller; an element-wise operation that combines two of them broadcasts -- or raises ValueError -- when their
+    shapes differ.  'Bad input is reported, not raised' therefore needs every such operation in solve to come after the shape rows of the validation block
+    (first-error-wins idiom: after `if exit_info is None and <shapes differ>: exit_info = <input error>` the fact `exit_info is None => shapes agree` holds) and to
+    run only under `exit_info is None` (a dominating guard, or the far side of the graceful return)."""
+    solve = eng.fn("solver.solve")
+    cfg = eng.cfg(solve)
+    arrays = None
+    # the shape rows: conds comparing np.shape(A) with np.shape(B); their arrays are the user arrays
+    rows = {}
+    for n in cfg.nodes_of_kind("cond"):
+        t = cfg.ast_of(n)
+        if isinstance(t, ast.Compare) and len(t.ops) == 1 and isinstance(t.ops[0], (ast.NotEq, ast.Eq)):
+            sides = []
+            for side in (t.left, t.comparators[0]):
+                if isinstance(side, ast.Call) and ekey(side.func).split(".")[-1] == "shape" and side.args and isinstance(side.args[0], ast.Name):
+                    sides.append(side.args[0].id)
+                elif isinstance(side, ast.Attribute) and side.attr == "shape" and isinstance(side.value, ast.Name):
+                    sides.append(side.value.id)
+            if len(sides) == 2:
+                rows[frozenset(sides)] = n
+    arrays = set(x for k in rows for x in k)
+    if len(arrays) < 3:
+        rep.unknown(rule, eng.where(solve), "fewer than two shape rows found in solve's validation block (arrays seen: %s)" % sorted(arrays))
+        return
+    anchor = sorted(arrays, key=lambda a: -sum(1 for k in rows if a in k))[0]        # the array every other one is compared with (x0)
+
+    def row_for(a, b_):
+        if frozenset((a, b_)) in rows:
+            return [rows[frozenset((a, b_))]]
+        out = []
+        for x in (a, b_):
+            if x != anchor:
+                r = rows.get(frozenset((x, anchor)))
+                if r is None:
+                    return None
+                out.append(r)
+        return out
+
+    def names(e):
+        return set(x.id for x in ast.walk(e) if isinstance(x, ast.Name) and x.id in arrays)
+
+    nops = 0
+    for n, d in cfg.g.nodes(data=True):
+        st = d["ast"]
+        if st is None or d["kind"] not in ("stmt", "cond"):
+            continue
+        for sub in ast.walk(st):
+            pair = None
+            if isinstance(sub, ast.BinOp) and isinstance(sub.op, (ast.Add, ast.Sub, ast.Mult, ast.Div)):
+                l, r = names(sub.left), names(sub.right)
+                if l and r and l != r:
+                    pair = (sorted(l)[0], sorted(r - l or r)[0])
+            elif isinstance(sub, ast.Compare) and len(sub.ops) == 1 and isinstance(sub.ops[0], (ast.Lt, ast.LtE, ast.Gt, ast.GtE)):
+                l, r = names(sub.left), names(sub.comparators[0])
+                if l and r and l != r:
+                    pair = (sorted(l)[0], sorted(r - l or r)[0])
+            if pair is None or pair[0] == pair[1]:
+                continue
+            nops += 1
+            site = eng.where(solve, st)
+            need = row_for(*pair)
+            if need is None:
+                rep.unknown(rule, site, "no shape row relates `%s` and `%s`" % pair)
+                continue
+            # the `if` of each needed row must have been passed: its first atomic test dominates this node
+            def if_head(c):
+                stmt = cfg.stmt_of(c)
+                heads = [m for m in cfg.nodes_of_kind("cond") if cfg.stmt_of(m) is stmt]
+                return min(heads)
+            after_rows = all(cfg.dominates(if_head(c), n) and if_head(c) != n and not (cfg.stmt_of(c) is cfg.stmt_of(n)) for c in need)
+            gs = [a for (_b, a) in guards_of(cfg, n)]
+            live = any(a.op == "is" and ekey(a.lhs) == "exit_info" and is_none(a.rhs) for a in gs)
+            if after_rows and live:
+                rep.ok(rule, site, "`%s` combines %s and %s after their shape rows, under `exit_info is None`" % (short(sub, 40), pair[0], pair[1]), nontrivial=False)
+            else:
+                rep.bad(rule, site, "solver.solve|arrays-combined-before-shape-check|%s" % short(sub, 25),
+                        "`%s` combines the caller's arrays %s and %s %s: for bounds whose shape differs from x0 NumPy raises a broadcasting ValueError out of solve instead of the input-error flag"
+                        % (short(sub, 40), pair[0], pair[1], "before their shapes were validated" if not after_rows else "although an input error may already have been recorded (not under `exit_info is None`)"))
+    rep.require_count(rule, "element-wise operations combining two user arrays in solve", nops, 3)
+
+
 # --------------------------------------------------------------------------------------------- C07-13
 def rule_coordinate_precondition_established(eng, rep, rule="C07-13.precondition-of-the-coordinate-initialiser-is-established-by-solve"):
     """Controller.initialise_coordinate_directions asserts num_pts <= (n+1)(n+2)/2; solve_main calls it whenever init.random_initial_directions is false.
@@ -1299,6 +1382,7 @@ def run(eng, rep):
     rule_validators_test_the_value_itself(eng, rep)
     rule_restart_geometry_loop_in_range(eng, rep)
     rule_coordinate_precondition_established(eng, rep)
+    rule_shapes_validated_before_arithmetic(eng, rep)
     rule_internal_param_updates(eng, rep)
     rule_definite_assignment(eng, rep)
     from . import c20
